@@ -650,6 +650,13 @@ def normalise_module(tree):
 
 # ---------------------------------------------------------------------------------------------------------------- N2
 def _literal(e):
+    t_ = ast.unparse(e).replace(' ', '') if isinstance(e, ast.AST) else ''
+    if t_ in ('np.nan', 'numpy.nan', 'np.NaN', 'math.nan', "float('nan')", 'np.NAN'):
+        return float('nan')
+    if t_ in ('np.inf', 'numpy.inf', 'math.inf', "float('inf')"):
+        return float('inf')
+    if t_ in ('-np.inf', '-numpy.inf', '-math.inf', "float('-inf')", "-float('inf')"):
+        return float('-inf')
     try:
         v = ast.literal_eval(e)
     except Exception:
